@@ -288,3 +288,699 @@ Proof.
   - apply erase_none.
 Qed.
 End SIM.
+
+(* ============================================================================================== *)
+(* Part B - exactly-once                                                                           *)
+(* ============================================================================================== *)
+Section LOG.
+Variable Sy : Type. Variable sxor : Sy -> Sy -> Sy. Variable s0 : Sy.
+Notation st := (st Sy).
+
+(* column c becomes known between s and s' *)
+Definition newly (s s' : st) (c : nat) : Prop := known s c = false /\ known s' c = true.
+Definition kmono (s s' : st) : Prop := forall c, known s c = true -> known s' c = true.
+
+(* l lists, without repetition, exactly the columns that become known between s and s' *)
+Definition LogOK (s s' : st) (l : list nat) : Prop :=
+  kmono s s' /\ NoDup l /\ forall e, In e l <-> newly s s' e.
+
+Lemma LogOK_nil (s s' : st) : (forall e, known s' e = known s e) -> LogOK s s' [].
+Proof.
+  intros Hk. split; [|split].
+  - intros c Hc. rewrite Hk. exact Hc.
+  - constructor.
+  - intros e. split; [intros []|]. intros [Ha Hb]. rewrite Hk, Ha in Hb. discriminate.
+Qed.
+
+Lemma LogOK_ext_r (s s1 s2 : st) l : (forall e, known s2 e = known s1 e) -> LogOK s s1 l -> LogOK s s2 l.
+Proof.
+  clear sxor s0.
+  intros Hk (Hm & Hn & Hi). split; [|split; [exact Hn|]].
+  - intros c Hc. rewrite Hk. apply Hm. exact Hc.
+  - intros e. rewrite (Hi e). unfold newly. rewrite Hk. tauto.
+Qed.
+
+Lemma LogOK_ext_l (s1 s2 s' : st) l : (forall e, known s2 e = known s1 e) -> LogOK s1 s' l -> LogOK s2 s' l.
+Proof.
+  clear sxor s0.
+  intros Hk (Hm & Hn & Hi). split; [|split; [exact Hn|]].
+  - intros c Hc. apply Hm. rewrite <- Hk. exact Hc.
+  - intros e. rewrite (Hi e). unfold newly. rewrite Hk. tauto.
+Qed.
+
+Lemma known_dec (s : st) e : known s e = true \/ known s e = false.
+Proof. destruct (known s e); auto. Qed.
+
+Lemma LogOK_app (s s1 s2 : st) l1 l2 : LogOK s s1 l1 -> LogOK s1 s2 l2 -> LogOK s s2 (l1 ++ l2).
+Proof.
+  intros (Hm1 & Hn1 & Hi1) (Hm2 & Hn2 & Hi2). split; [|split].
+  - intros c Hc. apply Hm2, Hm1, Hc.
+  - revert Hn1 Hi1. induction l1 as [|a l1 IH]; intros Hn1 Hi1; [exact Hn2|].
+    cbn [app]. inversion Hn1 as [|a' l1' Hna Hn1']; subst. constructor.
+    + intros Hin. apply in_app_or in Hin. destruct Hin as [Hin|Hin]; [exact (Hna Hin)|].
+      apply Hi2 in Hin. destruct Hin as [Hf _].
+      destruct (proj1 (Hi1 a) (or_introl eq_refl)) as [_ Ht]. rewrite Ht in Hf. discriminate.
+    + assert (Hsub : forall e, In e l1 -> known s1 e = true).
+      { intros e He. exact (proj2 (proj1 (Hi1 e) (or_intror He))). }
+      clear IH Hi1 Hna Hn1. induction l1 as [|b l1 IH]; [exact Hn2|].
+      cbn [app]. inversion Hn1' as [|b' l1' Hnb Hn1'']; subst. constructor.
+      * intros Hin. apply in_app_or in Hin. destruct Hin as [Hin|Hin]; [exact (Hnb Hin)|].
+        apply Hi2 in Hin. destruct Hin as [Hf _]. rewrite (Hsub b (or_introl eq_refl)) in Hf. discriminate.
+      * apply IH; [exact Hn1''|]. intros e He. apply Hsub. right. exact He.
+  - intros e. rewrite in_app_iff, (Hi1 e), (Hi2 e). unfold newly. split.
+    + intros [[Ha Hb]|[Ha Hb]].
+      * split; [exact Ha|]. apply Hm2. exact Hb.
+      * split; [|exact Hb]. destruct (known_dec s e) as [Ht|Hf]; [|exact Hf].
+        apply Hm1 in Ht. rewrite Ht in Ha. discriminate.
+    + intros [Ha Hb]. destruct (known_dec s1 e) as [Ht|Hf]; [left|right]; auto.
+Qed.
+
+Lemma LogOK_single (s s' : st) c : known s c = false -> (forall e, known s' e = known s e || (e =? c)) ->
+  LogOK s s' [c].
+Proof.
+  intros Hc Hk. split; [|split].
+  - intros e He. rewrite Hk, He. reflexivity.
+  - constructor; [intros []|constructor].
+  - intros e. unfold newly. rewrite Hk. split.
+    + intros [<-|[]]. rewrite Hc, Nat.eqb_refl. auto.
+    + intros [Ha Hb]. rewrite Ha in Hb. cbn [orb] in Hb. apply Nat.eqb_eq in Hb. left. symmetry. exact Hb.
+Qed.
+
+Lemma LogOK_perm (s s' : st) l l' : Permutation l l' -> LogOK s s' l -> LogOK s s' l'.
+Proof.
+  intros Hp (Hm & Hn & Hi). split; [exact Hm|split].
+  - exact (Permutation_NoDup Hp Hn).
+  - intros e. rewrite <- (Hi e). split; apply Permutation_in; [apply Permutation_sym|]; exact Hp.
+Qed.
+
+(* the shape of B1: c is the submitted column, l the log of the call *)
+Lemma LogOK_cons_inv (s s' : st) c l : LogOK s s' (c :: l) ->
+  NoDup l /\ ~ In c l /\ (forall e, In e l <-> (newly s s' e /\ e <> c)).
+Proof.
+  intros (Hm & Hn & Hi). inversion Hn as [|c' l' Hnc Hnl]; subst. split; [exact Hnl|split; [exact Hnc|]].
+  intros e. split.
+  - intros He. split; [apply Hi; right; exact He|]. intros ->. exact (Hnc He).
+  - intros [Hne Hec]. apply Hi in Hne. destruct Hne as [->|He]; [congruence|exact He].
+Qed.
+
+Lemma known_upd (s : st) c v e : c < length (tab s) -> known (set_tab s c v) e = known s e || (e =? c).
+Proof.
+  intros Hc. unfold known, set_tab. cbn [tab]. destruct (Nat.eq_dec c e) as [<-|Hne].
+  - rewrite it_upd_nth_eq by exact Hc. rewrite Nat.eqb_refl, orb_true_r. reflexivity.
+  - rewrite it_upd_nth_neq by exact Hne.
+    assert (E : (e =? c) = false) by (apply Nat.eqb_neq; intro; apply Hne; auto). rewrite E, orb_false_r. reflexivity.
+Qed.
+
+(* ---------------------------------------------------------------------------------------------- *)
+(* B3 - the ML finish.  The only hypothesis on the state: the columns named by the rows (and the    *)
+(* source columns) are entries of the table - otherwise a table write is silently lost.             *)
+(* ---------------------------------------------------------------------------------------------- *)
+Definition MLRng (s : st) : Prop := forall row x, In x (nth row (rws s) []) -> x < length (tab s).
+Definition Pres (s s' : st) : Prop := r s' = r s /\ n s' = n s /\ length (tab s') = length (tab s).
+
+Lemma Pres_refl (s : st) : Pres s s.
+Proof. unfold Pres. auto. Qed.
+Lemma Pres_trans (s1 s2 s3 : st) : Pres s1 s2 -> Pres s2 s3 -> Pres s1 s3.
+Proof. unfold Pres. intros (A & B & C) (A' & B' & C'). repeat split; congruence. Qed.
+
+Lemma nth_upd_cases {A : Type} (l : list A) i j x d :
+  nth j (ITModel.upd l i x) d = if (j =? i) && (i <? length l) then x else nth j l d.
+Proof.
+  revert i j; induction l as [|h t IH]; intros i j.
+  - cbn [ITModel.upd length]. rewrite andb_false_r. reflexivity.
+  - destruct i as [|i], j as [|j]; cbn [ITModel.upd nth length]; try reflexivity.
+    rewrite IH. reflexivity.
+Qed.
+
+Lemma MLRng_set_row (s : st) row rw u t : MLRng s -> (forall x, In x rw -> x < length (tab s)) ->
+  MLRng (set_row s row rw u t).
+Proof.
+  intros HR Hrw row' x Hx. cbn [set_row rws tab] in *. rewrite nth_upd_cases in Hx.
+  destruct ((row' =? row) && (row <? length (rws s))); [apply Hrw; exact Hx|exact (HR row' x Hx)].
+Qed.
+
+Lemma MLRng_set_tab (s : st) c v : MLRng s -> MLRng (set_tab s c v).
+Proof. intros HR row x Hx. cbn [set_tab rws tab] in *. rewrite upd_length. exact (HR row x Hx). Qed.
+
+Lemma rm_sub c l x : In x (rm c l) -> In x l.
+Proof. unfold rm. intros H. apply filter_In in H. exact (proj1 H). Qed.
+
+(* what one step of a loop over rows / columns does to (state, log) *)
+Definition StepOK (s : st) (l : list nat) (s' : st) (l' : list nat) : Prop :=
+  exists l2, l' = l ++ l2 /\ MLRng s' /\ Pres s s' /\ LogOK s s' l2.
+
+Lemma fold_log {X : Type} (F : option (st * list nat) -> X -> option (st * list nat)) :
+  (forall x, F None x = None) ->
+  (forall s l x s' l', MLRng s -> F (Some (s, l)) x = Some (s', l') -> StepOK s l s' l') ->
+  forall xs s l s' l', MLRng s -> fold_left F xs (Some (s, l)) = Some (s', l') -> StepOK s l s' l'.
+Proof.
+  intros HN HS. induction xs as [|x xs IH]; intros s l s' l' HR H.
+  - cbn [fold_left] in H. injection H as <- <-. exists []. rewrite app_nil_r.
+    split; [reflexivity|split; [exact HR|split; [apply Pres_refl|apply LogOK_nil; reflexivity]]].
+  - cbn [fold_left] in H. destruct (F (Some (s, l)) x) as [[s1 l1]|] eqn:E.
+    + destruct (HS s l x s1 l1 HR E) as (la & -> & HR1 & HP1 & HL1).
+      destruct (IH s1 (l ++ la) s' l' HR1 H) as (lb & -> & HR2 & HP2 & HL2).
+      exists (la ++ lb). rewrite app_assoc.
+      split; [reflexivity|split; [exact HR2|split; [exact (Pres_trans _ _ _ HP1 HP2)|exact (LogOK_app _ _ _ _ _ HL1 HL2)]]].
+    + exfalso. clear -H HN. induction xs as [|y xs IH]; cbn [fold_left] in H; [discriminate|].
+      rewrite HN in H. exact (IH H).
+Qed.
+
+Definition SimContract (rec : st -> nat -> Sy -> option (st * list nat)) : Prop :=
+  forall s c v s' l, MLRng s -> rec s c v = Some (s', l) -> MLRng s' /\ Pres s s' /\ LogOK s s' l.
+
+Lemma known_nth_none (s : st) c : nth c (tab s) None = None -> known s c = false.
+Proof. unfold known. intros ->. reflexivity. Qed.
+Lemma known_nth_some (s : st) c w : nth c (tab s) None = Some w -> known s c = true.
+Proof. unfold known. intros ->. reflexivity. Qed.
+
+Lemma srow_ev_step rec c v : SimContract rec ->
+  forall s l row s' l', MLRng s -> srow_ev Sy sxor rec c v (Some (s, l)) row = Some (s', l') -> StepOK s l s' l'.
+Proof.
+  intros HC s l row s' l' HR H. unfold srow_ev in H. cbv zeta in H.
+  set (t := match nth row (ct s) None with Some t => sxor t v | None => v end) in *.
+  set (u := getn (unk s) row - 1) in *.
+  set (rw := rm c (nth row (rws s) [])) in *.
+  assert (Hrw : forall x, In x rw -> x < length (tab s)).
+  { intros x Hx. apply (HR row x). exact (rm_sub c _ x Hx). }
+  assert (HR1 : MLRng (set_row s row rw u (Some t))) by (apply MLRng_set_row; assumption).
+  assert (Hsame : StepOK s l (set_row s row rw u (Some t)) l).
+  { exists []. rewrite app_nil_r. split; [reflexivity|split; [exact HR1|split; [unfold Pres; auto|]]].
+    apply LogOK_nil. reflexivity. }
+  destruct (u =? 1).
+  - destruct rw as [|c' rest] eqn:Erw; [discriminate|].
+    cbn [set_row tab] in H.
+    destruct (nth c' (tab s) None) as [w|] eqn:Ec'.
+    + injection H as <- <-. exact Hsame.
+    + match type of H with match rec ?a ?b ?d with Some _ => _ | None => _ end = _ =>
+        destruct (rec a b d) as [[s2 l2]|] eqn:Erec; [|discriminate]; set (sm := a) in * end.
+      injection H as <- <-.
+      assert (Hc' : c' < length (tab s)) by (apply Hrw; left; reflexivity).
+      assert (HRm : MLRng sm).
+      { unfold sm. apply MLRng_set_tab. apply MLRng_set_row; [exact HR1|].
+        intros x Hx. cbn [set_row tab]. apply Hrw. exact (rm_sub c' _ x Hx). }
+      destruct (HC sm c' t s2 l2 HRm Erec) as (HR2 & HP2 & HL2).
+      assert (Hkm : forall e, known sm e = known s e || (e =? c')).
+      { intros e. unfold sm. rewrite known_upd by (cbn [set_row tab]; exact Hc'). reflexivity. }
+      exists (c' :: l2). split; [reflexivity|split; [exact HR2|split]].
+      * apply (Pres_trans _ sm); [|exact HP2]. unfold Pres, sm. cbn [set_tab set_row r n tab].
+        rewrite upd_length. auto.
+      * change (c' :: l2) with ([c'] ++ l2). apply (LogOK_app _ sm); [|exact HL2].
+        apply LogOK_single; [apply known_nth_none; exact Ec'|exact Hkm].
+  - injection H as <- <-. exact Hsame.
+Qed.
+
+Lemma srow_ev_none rec c v row : srow_ev Sy sxor rec c v None row = None.
+Proof. reflexivity. Qed.
+
+Lemma simplify_ev_contract : forall fuel, SimContract (simplify_ev sxor fuel).
+Proof.
+  induction fuel as [|f IH]; intros s c v s' l HR H; [discriminate|].
+  rewrite simplify_ev_unfold in H. destruct (rows_with s c) as [|row0 rowsl].
+  - injection H as <- <-. split; [exact HR|split; [apply Pres_refl|apply LogOK_nil; reflexivity]].
+  - cbv zeta in H.
+    assert (He : tab (snd (if r s <=? c then is_complete s else (false, s))) = tab s
+              /\ rws (snd (if r s <=? c then is_complete s else (false, s))) = rws s
+              /\ r (snd (if r s <=? c then is_complete s else (false, s))) = r s
+              /\ n (snd (if r s <=? c then is_complete s else (false, s))) = n s)
+      by (destruct (r s <=? c); repeat split; reflexivity).
+    destruct (if r s <=? c then is_complete s else (false, s)) as [cf se]. cbn [fst snd] in *.
+    destruct He as (Et & Er & Err & Enn).
+    assert (HRe : MLRng se) by (intros row x Hx; rewrite Et; rewrite Er in Hx; exact (HR row x Hx)).
+    assert (HPe : Pres s se) by (unfold Pres; rewrite Et; auto).
+    assert (Hke : forall e, known se e = known s e) by (apply known_tab_eq; exact Et).
+    destruct cf.
+    + injection H as <- <-. split; [exact HRe|split; [exact HPe|apply LogOK_nil; exact Hke]].
+    + destruct (fold_log (srow_ev Sy sxor (simplify_ev sxor f) c v) (srow_ev_none _ c v)
+                (fun s l x s' l' => srow_ev_step _ c v IH s l x s' l') (row0 :: rowsl) se [] s' l HRe H)
+        as (l2 & -> & HR2 & HP2 & HL2).
+      cbn [app]. split; [exact HR2|split; [exact (Pres_trans _ _ _ HPe HP2)|]].
+      apply (LogOK_ext_l se); [intros e; symmetry; apply Hke|exact HL2].
+Qed.
+
+(* B3, simplification: no repetition, exactly the newly known columns *)
+Theorem simplify_ev_log fuel (s : st) c v s' l : MLRng s -> simplify_ev sxor fuel s c v = Some (s', l) ->
+  NoDup l /\ forall e, In e l <-> newly s s' e.
+Proof. intros HR H. destruct (simplify_ev_contract fuel s c v s' l HR H) as (_ & _ & (_ & Hn & Hi)). auto. Qed.
+
+Lemma inject_ev_step fuel : forall s l c s' l', MLRng s ->
+  inject_ev sxor fuel (Some (s, l)) c = Some (s', l') -> StepOK s l s' l'.
+Proof.
+  intros s l c s' l' HR H. cbn [inject_ev] in H. destruct (nth c (tab s) None) as [v|].
+  - destruct (simplify_ev sxor fuel s c v) as [[s2 l2]|] eqn:E; [|discriminate]. injection H as <- <-.
+    destruct (simplify_ev_contract fuel s c v s2 l2 HR E) as (HR2 & HP2 & HL2).
+    exists l2. auto.
+  - injection H as <- <-. exists []. rewrite app_nil_r.
+    split; [reflexivity|split; [exact HR|split; [apply Pres_refl|apply LogOK_nil; reflexivity]]].
+Qed.
+
+Lemma inject_ev_fold_log fuel cols (s : st) l s' l' : MLRng s ->
+  fold_left (inject_ev sxor fuel) cols (Some (s, l)) = Some (s', l') -> StepOK s l s' l'.
+Proof.
+  apply (fold_log (inject_ev sxor fuel)); [reflexivity|].
+  intros s1 l1 x s2 l2. apply inject_ev_step.
+Qed.
+
+(* the write-back of the solver: exactly the listed columns become known *)
+Definition kn (tb : list (option Sy)) (c : nat) : bool := match nth c tb None with Some _ => true | None => false end.
+
+Lemma kn_upd (tb : list (option Sy)) c w e : c < length tb -> kn (ITModel.upd tb c (Some w)) e = kn tb e || (e =? c).
+Proof.
+  intros Hc. unfold kn. destruct (Nat.eq_dec c e) as [<-|Hne].
+  - rewrite it_upd_nth_eq by exact Hc. rewrite Nat.eqb_refl, orb_true_r. reflexivity.
+  - rewrite it_upd_nth_neq by exact Hne.
+    assert (E : (e =? c) = false) by (apply Nat.eqb_neq; intro; apply Hne; auto). rewrite E, orb_false_r. reflexivity.
+Qed.
+
+Lemma write_back_kn : forall (srcs : list nat) (x : list Sy) pos (tb : list (option Sy)) e,
+  (forall c, In c srcs -> c < length tb) ->
+  kn (write_back s0 srcs x pos tb) e = kn tb e || existsb (Nat.eqb e) srcs.
+Proof.
+  induction srcs as [|c srcs IH]; intros x pos tb e Hr.
+  - cbn [write_back existsb]. rewrite orb_false_r. reflexivity.
+  - cbn [write_back existsb]. destruct (nth c tb None) as [w|] eqn:Ec.
+    + rewrite IH by (intros c0 Hc0; apply Hr; right; exact Hc0).
+      destruct (e =? c) eqn:E; [|reflexivity]. apply Nat.eqb_eq in E. subst e.
+      unfold kn. rewrite Ec. reflexivity.
+    + rewrite IH by (intros c0 Hc0; rewrite upd_length; apply Hr; right; exact Hc0).
+      rewrite kn_upd by (apply Hr; left; reflexivity). rewrite orb_assoc. reflexivity.
+Qed.
+
+Lemma map_add_seq rr : forall k a, map (fun i => rr + i) (seq a k) = seq (rr + a) k.
+Proof.
+  induction k as [|k IH]; intros a; [reflexivity|].
+  cbn [seq map]. rewrite IH. rewrite Nat.add_succ_r. reflexivity.
+Qed.
+
+Lemma existsb_eqb_In e (l : list nat) : existsb (Nat.eqb e) l = true <-> In e l.
+Proof.
+  rewrite existsb_exists. split.
+  - intros (x & Hx & E). apply Nat.eqb_eq in E. subst x. exact Hx.
+  - intros H. exists e. split; [exact H|apply Nat.eqb_refl].
+Qed.
+
+(* B3: the whole finish.  The log lists exactly once every column that becomes known during the call
+   (sources AND repairs: the repairs found by the solver are not stored, hence not newly known) *)
+Theorem ml_finish_ev_logok fuel perm (s : st) o l : MLRng s -> n s <= length (tab s) ->
+  ml_finish_ev sxor s0 fuel perm s = Some (o, l) -> LogOK s (o_st o) l.
+Proof.
+  intros HR Hn H. unfold ml_finish_ev in H. cbv zeta in H.
+  set (srcs := map (fun i => r s + i) (seq 0 (n s - r s))) in *.
+  destruct (fold_left (inject_ev sxor fuel) perm (fold_left (inject_ev sxor fuel) srcs (Some (prepar s, []))))
+    as [[s1 l1]|] eqn:Hf; [|discriminate].
+  destruct (ml_finish sxor s0 fuel perm s) as [o'|] eqn:Hm; [|discriminate].
+  injection H as <- <-.
+  (* the simplification phase *)
+  rewrite <- fold_left_app in Hf.
+  assert (HRp : MLRng (prepar s)) by exact HR.
+  destruct (inject_ev_fold_log fuel (srcs ++ perm) (prepar s) [] s1 l1 HRp Hf) as (l2 & E2 & HR1 & HP1 & HL1).
+  cbn [app] in E2. subst l2.
+  assert (HL1' : LogOK s s1 l1) by (apply (LogOK_ext_l (prepar s)); [reflexivity|exact HL1]).
+  destruct HP1 as (Pr & Pn & Pt). cbn [prepar r n tab] in Pr, Pn, Pt.
+  (* the same state inside ml_finish *)
+  pose proof (inject_ev_fold_erase Sy sxor fuel (srcs ++ perm) (Some (prepar s, []))) as He.
+  rewrite Hf in He. cbn [erase] in He. rewrite fold_left_app in He.
+  unfold ml_finish in Hm. cbv zeta in Hm. change (r (prepar s)) with (r s) in Hm. fold srcs in Hm.
+  rewrite <- He in Hm. clear He Hf.
+  assert (Hgive : forall (sx : st), tab sx = tab s1 ->
+            (let '(b, s2) := is_complete sx in Some {| o_st := s2; o_ok := b; o_solved := false |}) = Some o' ->
+            LogOK s (o_st o') (if o_solved o' then l1 ++ filter (fun c => match nth c (tab s1) None with None => true | Some _ => false end) srcs else l1)).
+  { intros sx Ex Hg. unfold is_complete in Hg. injection Hg as <-. cbn [o_st o_solved].
+    apply (LogOK_ext_r s s1); [|exact HL1']. apply known_tab_eq. exact Ex. }
+  match type of Hm with (if ?c then _ else _) = _ => destruct c end.
+  - exact (Hgive s1 eq_refl Hm).
+  - match type of Hm with (let '(b, ct') := ?tk in _) = _ => destruct tk as [b ct'] end.
+    cbn [r n rws unk enc ct tab fnd] in Hm.
+    match type of Hm with match ?sv with Some _ => _ | None => _ end = _ => destruct sv as [xv|] end.
+    + injection Hm as <-. cbn [o_st o_solved]. rewrite Pr. fold srcs.
+      apply (LogOK_app _ s1); [exact HL1'|].
+      assert (Hsr : forall c, In c srcs -> c < length (tab s1)).
+      { intros c Hc. unfold srcs in Hc. rewrite map_add_seq in Hc. apply in_seq in Hc. lia. }
+      assert (Hnd : NoDup srcs) by (unfold srcs; rewrite map_add_seq; apply seq_NoDup).
+      match goal with |- LogOK s1 ?so _ =>
+        assert (Hk : forall e, known so e = known s1 e || existsb (Nat.eqb e) srcs) end.
+      { intros e. unfold known at 1. cbn [tab]. exact (write_back_kn srcs xv _ (tab s1) e Hsr). }
+      split; [|split].
+      * intros e Hke. rewrite Hk, Hke. reflexivity.
+      * apply NoDup_filter. exact Hnd.
+      * intros e. rewrite filter_In. unfold newly. rewrite Hk. rewrite <- existsb_eqb_In.
+        unfold known. destruct (nth e (tab s1) None); cbn [orb]; split; intros [A B]; split; auto; discriminate.
+    + refine (Hgive _ _ Hm). reflexivity.
+Qed.
+
+(* B3 in the form asked for *)
+Theorem ml_finish_ev_log fuel perm (s : st) o l : MLRng s -> n s <= length (tab s) ->
+  ml_finish_ev sxor s0 fuel perm s = Some (o, l) ->
+  NoDup l
+  /\ (forall e, In e l -> known s e = false /\ known (o_st o) e = true)
+  /\ (forall e, known s e = false -> known (o_st o) e = true -> In e l)
+  /\ (forall e, r s <= e < n s -> known s e = false -> known (o_st o) e = true -> In e l).
+Proof.
+  intros HR Hn H. destruct (ml_finish_ev_logok fuel perm s o l HR Hn H) as (_ & Hnd & Hi).
+  split; [exact Hnd|split; [|split]].
+  - intros e He. apply Hi. exact He.
+  - intros e Ha Hb. apply Hi. split; assumption.
+  - intros e _ Ha Hb. apply Hi. split; assumption.
+Qed.
+End LOG.
+
+(* ---------------------------------------------------------------------------------------------- *)
+(* B1 / B2 - the streaming decoder, on the states of ITProofs (WF, Inv / PInv, Good)                *)
+(* ---------------------------------------------------------------------------------------------- *)
+Section ITLOG.
+Variable Sy : Type. Variable sxor : Sy -> Sy -> Sy. Variable s0 : Sy.
+Notation st := (st Sy).
+Variable H0 : list (list nat).
+Variable R0 N0 : nat.
+Hypothesis H0_len : length H0 = R0.
+Hypothesis H0_nodup : forall i, i < R0 -> NoDup (nth i H0 []).
+Hypothesis H0_range : forall i c, i < R0 -> In c (nth i H0 []) -> c < N0.
+Hypothesis H0_deg : forall i, i < R0 -> 2 <= length (nth i H0 []).
+Hypothesis R_le_N : R0 <= N0.
+
+Notation WF := (WF Sy R0 N0).
+Notation Inv := (Inv Sy H0 R0).
+Notation PInv := (PInv Sy H0 R0).
+Notation Good := (Good Sy H0 R0 N0).
+Notation iscomp := (iscomp Sy R0 N0).
+Notation Contract := (Contract Sy H0 R0 N0).
+Notation LogOK := (LogOK Sy).
+Notation newly := (newly Sy).
+
+Definition EvContract (dec_ev : st -> nat -> Sy -> option (st * list nat)) : Prop :=
+  forall s e v s' l, WF s -> PInv s e -> known s e = false -> e < N0 -> dec_ev s e v = Some (s', l) ->
+  LogOK s s' (e :: l).
+
+Lemma step3_ev_complete (dec_ev : st -> nat -> Sy -> option (st * list nat)) L (s s' : st) l :
+  WF s -> iscomp s -> step3_ev dec_ev L s = Some (s', l) -> l = [] /\ tab s' = tab s.
+Proof.
+  intros W Hc H. destruct L as [|row L'].
+  - cbn [step3_ev] in H. injection H as <- <-. auto.
+  - rewrite step3_ev_cons in H. pose proof (is_complete_spec Sy H0 R0 N0 H0_len R_le_N s W) as Hs.
+    destruct (is_complete s) as [b s1]. destruct Hs as (W1 & T1 & _ & _ & _ & _ & Hb).
+    assert (b = true) by (apply Hb; exact Hc). subst b. injection H as <- <-. auto.
+Qed.
+
+Lemma step3_ev_log dec_ev dec : Contract dec -> (forall s c v, erase (dec_ev s c v) = dec s c v) ->
+  EvContract dec_ev -> forall L (s s' : st) l,
+  WF s -> Inv s -> (forall i, In i L -> i < R0) -> step3_ev dec_ev L s = Some (s', l) -> LogOK s s' l.
+Proof.
+  intros HC Her HE. induction L as [|row L' IH]; intros s s' l W HI HL H.
+  - cbn [step3_ev] in H. injection H as <- <-. apply LogOK_nil. reflexivity.
+  - rewrite step3_ev_cons in H. pose proof (is_complete_spec Sy H0 R0 N0 H0_len R_le_N s W) as Hs.
+    destruct (is_complete s) as [b s1]. destruct Hs as (W1 & T1 & A1 & B1 & C1 & D1 & Hb).
+    assert (HI1 : Inv s1) by (apply (Inv_fields_eq Sy H0 R0 s s1 T1 A1 B1 C1 D1 HI)).
+    assert (Hk1 : forall c, known s1 c = known s c) by (apply known_tab_eq; exact T1).
+    apply (LogOK_ext_l Sy s1); [intros e; symmetry; apply Hk1|].
+    destruct b.
+    + injection H as <- <-. apply LogOK_nil. reflexivity.
+    + assert (Hrow : row < R0) by (apply HL; left; reflexivity).
+      assert (HL' : forall i, In i L' -> i < R0) by (intros i Hi; apply HL; right; exact Hi).
+      destruct (getn (enc s1) row =? 1) eqn:E1.
+      * apply Nat.eqb_eq in E1.
+        destruct (ready_row_shape Sy H0 R0 N0 H0_len H0_deg R_le_N s1 row Hrow (HI1 row Hrow) E1) as (cc & t & Hr & Hct & HU).
+        rewrite Hr, Hct in H.
+        destruct (consume_spec Sy sxor s0 H0 R0 N0 H0_len H0_range R_le_N s1 row cc t W1 HI1 Hrow Hr Hct HU)
+          as (Wc & Pc & Tc & Kc & Cc & _ & _ & _).
+        destruct (dec_ev (consume s1 row) cc t) as [[s2 e1]|] eqn:Ed; [|discriminate].
+        destruct (step3_ev dec_ev L' s2) as [[s3 e2]|] eqn:E3; [|discriminate].
+        injection H as <- <-.
+        assert (Kc' : known (consume s1 row) cc = false) by (rewrite (known_tab_eq Sy _ _ Tc); exact Kc).
+        pose proof (HE _ _ _ _ _ Wc Pc Kc' Cc Ed) as HL1.
+        assert (Ed' : dec (consume s1 row) cc t = Some s2) by (rewrite <- Her; exact (erase_pair _ _ _ Ed)).
+        destruct (HC _ _ _ _ Wc Pc Kc' Cc Ed') as (W2 & _ & _ & _ & Post2).
+        change (cc :: e1 ++ e2) with ((cc :: e1) ++ e2). apply (LogOK_app Sy _ s2).
+        -- apply (LogOK_ext_l Sy (consume s1 row)); [intros e; symmetry; apply known_tab_eq; exact Tc|exact HL1].
+        -- destruct Post2 as [Hcomp2|(HI2 & _)].
+           ++ destruct (step3_ev_complete dec_ev L' s2 s3 e2 W2 Hcomp2 E3) as (-> & T3).
+              apply LogOK_nil. apply known_tab_eq. exact T3.
+           ++ exact (IH s2 s3 e2 W2 HI2 HL' E3).
+      * exact (IH s1 s' l W1 HI1 HL' H).
+Qed.
+
+Lemma decode_ev_contract : forall fuel, EvContract (decode_ev sxor s0 fuel).
+Proof.
+  induction fuel as [|f IH]; intros s e v s' l W HP Hke He Hdec; [discriminate|].
+  rewrite decode_ev_unfold in Hdec. rewrite Hke in Hdec.
+  set (s1 := set_tab s e v) in *.
+  assert (Hk1 : forall c, known s1 c = known s c || (c =? e)).
+  { intros c. apply known_upd. rewrite (wf_tab Sy R0 N0 s W). exact He. }
+  assert (W1 : WF s1).
+  { destruct W as [Wr Wn Wrws Wunk Wenc Wct Wtab Wfnd Wcur]. constructor; cbn [s1 set_tab r n rws unk enc ct tab fnd];
+      rewrite ?upd_length; auto.
+    intros j Hj. rewrite Hk1. rewrite Wcur; auto. }
+  assert (Hearly : exists b sx, (if r s1 <=? e then is_complete s1 else (false, s1)) = (b, sx)
+            /\ WF sx /\ tab sx = tab s1 /\ rws sx = rws s /\ unk sx = unk s /\ enc sx = enc s /\ ct sx = ct s).
+  { destruct (r s1 <=? e).
+    - pose proof (is_complete_spec Sy H0 R0 N0 H0_len R_le_N s1 W1) as Hs. destruct (is_complete s1) as [b sx].
+      destruct Hs as (Wx & Tx & Ax & Bx & Cx & Dx & Hb). exists b, sx.
+      split; [reflexivity|]. split; [exact Wx|]. split; [exact Tx|]. split; [exact Ax|]. split; [exact Bx|].
+      split; [exact Cx|exact Dx].
+    - exists false, s1.
+      split; [reflexivity|]. split; [exact W1|]. do 4 (split; [reflexivity|]). reflexivity. }
+  destruct Hearly as (b & sx & Eearly & Wx & Tx & Ax & Bx & Cx & Dx).
+  cbv zeta in Hdec. rewrite Eearly in Hdec. cbn [fst snd] in Hdec.
+  assert (Hkx : forall c, known sx c = known s c || (c =? e)) by (intros c; rewrite (known_tab_eq Sy s1 sx Tx); apply Hk1).
+  assert (Hkex : known sx e = true) by (rewrite Hkx, Nat.eqb_refl; apply orb_true_r).
+  destruct b.
+  - injection Hdec as <- <-. apply LogOK_single; assumption.
+  - assert (Hrows : forall i, i < R0 -> rowinv Sy H0 (fun c => known sx c && negb (c =? e)) (Some e) sx i).
+    { intros i Hi. specialize (HP i Hi).
+      eapply rowinv_kn_ext; [|eapply rowinv_fields_eq; eauto].
+      intros c. cbn beta. rewrite Hkx. destruct (c =? e) eqn:E; cbn [negb].
+      - apply Nat.eqb_eq in E; subst. rewrite Hke. reflexivity.
+      - rewrite orb_false_r, andb_true_r. reflexivity. }
+    pose proof (step2_spec Sy sxor s0 H0 R0 N0 H0_len H0_nodup H0_range H0_deg R_le_N sx e v Wx He Hkex Hrows) as H2.
+    destruct (step2 sxor s0 sx e v) as [s2 L].
+    destruct H2 as (W2 & T2 & F2 & I2 & R2 & L2).
+    assert (HLrev : forall i, In i (rev L) -> i < R0) by (intros i Hi; apply L2; apply in_rev; exact Hi).
+    assert (Hk2 : forall c, known s2 c = known s c || (c =? e))
+      by (intros c; rewrite (known_tab_eq Sy sx s2 T2); apply Hkx).
+    pose proof (step3_ev_log (decode_ev sxor s0 f) (decode sxor s0 f)
+                  (decode_contract Sy sxor s0 H0 R0 N0 H0_len H0_nodup H0_range H0_deg R_le_N f)
+                  (decode_ev_erase Sy sxor s0 f) IH (rev L) s2 s' l W2 I2 HLrev Hdec) as HL3.
+    change (e :: l) with ([e] ++ l). apply (LogOK_app Sy _ s2); [|exact HL3].
+    apply LogOK_single; assumption.
+Qed.
+
+(* B1, under the preconditions of ITProofs.decode_contract (nested calls included) *)
+Theorem decode_ev_log fuel (s : st) c v s' l : WF s -> PInv s c -> c < N0 ->
+  decode_ev sxor s0 fuel s c v = Some (s', l) ->
+  NoDup l /\ ~ In c l /\ (forall e, In e l <-> (newly s s' e /\ e <> c)).
+Proof.
+  intros W HP Hc H. destruct (known s c) eqn:Hk.
+  - destruct fuel as [|f]; [discriminate|]. rewrite decode_ev_unfold, Hk in H. injection H as <- <-.
+    split; [constructor|split; [intros []|]]. intros e. split; [intros []|].
+    intros [[Ha Hb] _]. rewrite Ha in Hb. discriminate.
+  - apply LogOK_cons_inv. exact (decode_ev_contract fuel s c v s' l W HP Hk Hc H).
+Qed.
+
+(* a complete session state: nothing is decoded any more *)
+Lemma decode_ev_complete fuel (s s' : st) e v l : WF s -> iscomp s -> e < N0 -> known s e = false ->
+  decode_ev sxor s0 fuel s e v = Some (s', l) -> l = [].
+Proof.
+  intros W Hc He Hke Hdec. destruct fuel as [|f]; [discriminate|]. rewrite decode_ev_unfold, Hke in Hdec.
+  cbv zeta in Hdec. set (s1 := set_tab s e v) in *.
+  assert (Hk1 : forall c, known s1 c = known s c || (c =? e)).
+  { intros c. apply known_upd. rewrite (wf_tab Sy R0 N0 s W). exact He. }
+  assert (W1 : WF s1).
+  { destruct W as [Wr Wn Wrws Wunk Wenc Wct Wtab Wfnd Wcur]. constructor; cbn [s1 set_tab r n rws unk enc ct tab fnd];
+      rewrite ?upd_length; auto.
+    intros j Hj. rewrite Hk1. rewrite Wcur; auto. }
+  assert (Hc1 : iscomp s1) by (intros c Hcc; rewrite Hk1, Hc; auto).
+  destruct (r s1 <=? e).
+  - pose proof (is_complete_spec Sy H0 R0 N0 H0_len R_le_N s1 W1) as Hs. destruct (is_complete s1) as [b sx].
+    destruct Hs as (Wx & Tx & _ & _ & _ & _ & Hb). assert (b = true) by (apply Hb; exact Hc1). subst b.
+    cbn [fst snd] in Hdec. injection Hdec as <- <-. reflexivity.
+  - cbn [fst snd] in Hdec. unfold step2 in Hdec. fold (f2 Sy sxor s0 e v) in Hdec.
+    assert (HL : forall i, In i (rows_with s1 e) -> i < R0).
+    { intros i Hi. unfold rows_with in Hi. apply filter_In in Hi. destruct Hi as [Hi _]. apply in_seq in Hi.
+      rewrite (wf_r Sy R0 N0 s1 W1) in Hi. lia. }
+    destruct (step2_fold_wf Sy sxor s0 R0 N0 e v (rows_with s1 e) s1 [] W1 HL) as (W2 & T2).
+    destruct (fold_left (f2 Sy sxor s0 e v) (rows_with s1 e) (s1, [])) as [s2 L]. cbn [fst] in W2, T2.
+    assert (Hc2 : iscomp s2) by (apply (iscomp_tab_eq Sy R0 N0 s1 s2); [exact T2|exact Hc1]).
+    exact (proj1 (step3_ev_complete _ (rev L) s2 s' l W2 Hc2 Hdec)).
+Qed.
+
+(* B1 on the states of a session: the submitted column (if it was unknown) followed by the log *)
+Theorem decode_ev_logok_good fuel (s : st) c v s' l : Good s -> c < N0 ->
+  decode_ev sxor s0 fuel s c v = Some (s', l) ->
+  LogOK s s' ((if known s c then [] else [c]) ++ l).
+Proof.
+  intros (W & HG) Hc H. destruct (known s c) eqn:Hk.
+  - destruct fuel as [|f]; [discriminate|]. rewrite decode_ev_unfold, Hk in H. injection H as <- <-.
+    apply LogOK_nil. reflexivity.
+  - cbn [app]. destruct HG as [Hcomp|(HI & _)].
+    + assert (El : l = []) by exact (decode_ev_complete fuel s s' c v l W Hcomp Hc Hk H). subst l.
+      pose proof (erase_pair _ _ _ H) as Hd. rewrite decode_ev_erase in Hd.
+      destruct (decode_complete Sy sxor s0 H0 R0 N0 H0_len H0_nodup H0_range H0_deg R_le_N fuel s s' c v W Hcomp Hc Hd)
+        as (_ & _ & K' & M' & E').
+      split; [exact M'|split; [constructor; [intros []|constructor]|]].
+      intros e. split.
+      * intros [<-|[]]. split; assumption.
+      * intros [Ha Hb]. destruct (K' e Hb) as [Hx|Hx]; [rewrite Hx in Ha; discriminate|left; symmetry; exact Hx].
+    + exact (decode_ev_contract fuel s c v s' l W (Inv_PInv Sy H0 R0 s c HI) Hk Hc H).
+Qed.
+
+Theorem decode_ev_log_good fuel (s : st) c v s' l : Good s -> c < N0 ->
+  decode_ev sxor s0 fuel s c v = Some (s', l) ->
+  NoDup l /\ ~ In c l /\ (forall e, In e l <-> (newly s s' e /\ e <> c)).
+Proof.
+  intros HG Hc H. pose proof (decode_ev_logok_good fuel s c v s' l HG Hc H) as HL.
+  destruct (known s c) eqn:Hk.
+  - cbn [app] in HL. destruct HL as (Hm & Hn & Hi). split; [exact Hn|split].
+    + intros Hin. apply Hi in Hin. destruct Hin as [Ha _]. rewrite Hk in Ha. discriminate.
+    + intros e. rewrite (Hi e). split; [|tauto]. intros Hne. split; [exact Hne|].
+      intros ->. destruct Hne as [Ha _]. rewrite Hk in Ha. discriminate.
+  - apply LogOK_cons_inv. exact HL.
+Qed.
+
+(* ---------- B2: a whole session ---------- *)
+(* the columns submitted at a moment they were unknown ("received first"), in order *)
+Fixpoint firsts (fuel : nat) (s : st) (hist : list (nat * Sy)) : list nat :=
+  match hist with
+  | [] => []
+  | ev :: h =>
+      (if known s (fst ev) then [] else [fst ev]) ++
+      match decode sxor s0 fuel s (fst ev) (snd ev) with Some s' => firsts fuel s' h | None => [] end
+  end.
+
+Lemma firsts_sub fuel : forall hist (s : st) e, In e (firsts fuel s hist) -> In e (map fst hist).
+Proof.
+  induction hist as [|ev h IH]; intros s e He; [exact He|].
+  cbn [firsts] in He. cbn [map]. apply in_app_or in He. destruct He as [He|He].
+  - destruct (known s (fst ev)); [destruct He|]. destruct He as [<-|[]]. left. reflexivity.
+  - destruct (decode sxor s0 fuel s (fst ev) (snd ev)) as [s1|]; [|destruct He]. right. exact (IH s1 e He).
+Qed.
+
+Lemma estep_fold_none fuel : forall hist, fold_left (estep Sy sxor s0 fuel) hist None = None.
+Proof. induction hist as [|ev h IH]; [reflexivity|exact IH]. Qed.
+
+Lemma estep_fold_acc fuel : forall hist (s : st) l0,
+  fold_left (estep Sy sxor s0 fuel) hist (Some (s, l0)) =
+  match fold_left (estep Sy sxor s0 fuel) hist (Some (s, [])) with
+  | None => None | Some (s2, l2) => Some (s2, l0 ++ l2) end.
+Proof.
+  induction hist as [|ev h IH]; intros s l0.
+  - cbn [fold_left]. rewrite app_nil_r. reflexivity.
+  - cbn [fold_left estep]. destruct (decode_ev sxor s0 fuel s (fst ev) (snd ev)) as [[s1 l1]|].
+    + rewrite (IH s1 (l0 ++ l1)), (IH s1 ([] ++ l1)). cbn [app].
+      destruct (fold_left (estep Sy sxor s0 fuel) h (Some (s1, []))) as [[s2 l2]|]; [|reflexivity].
+      rewrite app_assoc. reflexivity.
+    + rewrite estep_fold_none. reflexivity.
+Qed.
+
+Lemma run_ev_cons fuel (s : st) ev h : run_ev sxor s0 fuel s (ev :: h) =
+  match decode_ev sxor s0 fuel s (fst ev) (snd ev) with
+  | None => None
+  | Some (s1, l1) => match run_ev sxor s0 fuel s1 h with None => None | Some (s2, l2) => Some (s2, l1 ++ l2) end
+  end.
+Proof.
+  rewrite !run_ev_fold. cbn [fold_left estep]. destruct (decode_ev sxor s0 fuel s (fst ev) (snd ev)) as [[s1 l1]|].
+  - rewrite run_ev_fold. cbn [app]. apply estep_fold_acc.
+  - apply estep_fold_none.
+Qed.
+
+Lemma Sound_top (s : st) : Sound Sy H0 R0 (fun _ => True) s.
+Proof. intros c _. apply peel_recv. exact I. Qed.
+
+(* B2, from any Good state: received-first columns and logged columns together are exactly the
+   columns that became known, each listed once *)
+Theorem run_ev_logok fuel : forall hist (s sf : st) l, Good s -> (forall ev, In ev hist -> fst ev < N0) ->
+  run_ev sxor s0 fuel s hist = Some (sf, l) ->
+  Good sf /\ LogOK s sf (firsts fuel s hist ++ l).
+Proof.
+  induction hist as [|ev h IH]; intros s sf l HG Hr H.
+  - cbn in H. injection H as <- <-. split; [exact HG|]. apply LogOK_nil. reflexivity.
+  - rewrite run_ev_cons in H.
+    destruct (decode_ev sxor s0 fuel s (fst ev) (snd ev)) as [[s1 l1]|] eqn:Ed; [|discriminate].
+    destruct (run_ev sxor s0 fuel s1 h) as [[s2 l2]|] eqn:Er; [|discriminate]. injection H as <- <-.
+    assert (Hev : fst ev < N0) by (apply Hr; left; reflexivity).
+    pose proof (erase_pair _ _ _ Ed) as Hd. rewrite decode_ev_erase in Hd.
+    destruct (decode_good Sy sxor s0 H0 R0 N0 H0_len H0_nodup H0_range H0_deg R_le_N fuel s s1 (fst ev) (snd ev)
+                (fun _ => True) HG (Sound_top s) I Hev Hd) as (G1 & _ & _ & _).
+    destruct (IH s1 s2 l2 G1 (fun e He => Hr e (or_intror He)) Er) as (G2 & HL2).
+    split; [exact G2|].
+    pose proof (decode_ev_logok_good fuel s (fst ev) (snd ev) s1 l1 HG Hev Ed) as HL1.
+    pose proof (LogOK_app Sy _ _ _ _ _ HL1 HL2) as HL.
+    cbn [firsts]. rewrite Hd. revert HL. apply LogOK_perm.
+    rewrite <- !app_assoc. apply Permutation_app_head.
+    rewrite !app_assoc. apply Permutation_app_tail. apply Permutation_app_comm.
+Qed.
+
+Lemma NoDup_app_parts {A : Type} (a b : list A) : NoDup (a ++ b) ->
+  NoDup a /\ NoDup b /\ forall x, In x a -> ~ In x b.
+Proof.
+  induction a as [|h a IH]; intros H.
+  - split; [constructor|split; [exact H|intros x []]].
+  - cbn [app] in H. inversion H as [|h' t' Hn Hnd]; subst. destruct (IH Hnd) as (Na & Nb & Hd).
+    split; [|split; [exact Nb|]].
+    + constructor; [|exact Na]. intros Hin. apply Hn. apply in_or_app. left. exact Hin.
+    + intros x [<-|Hx]; [|exact (Hd x Hx)]. intros Hin. apply Hn. apply in_or_app. right. exact Hin.
+Qed.
+
+(* B2, from the initial state of ITProofs.run *)
+Theorem run_ev_log fuel hist (sf : st) l : (forall ev, In ev hist -> fst ev < N0) ->
+  run_ev sxor s0 fuel (init Sy R0 N0 H0) hist = Some (sf, l) ->
+  let fs := firsts fuel (init Sy R0 N0 H0) hist in
+  NoDup l /\ NoDup fs
+  /\ (forall e, ~ (In e l /\ In e fs))
+  /\ (forall e, known sf e = true -> In e l \/ In e fs)
+  /\ (forall e, In e l <-> (known sf e = true /\ ~ In e fs))
+  /\ (forall e, In e fs -> known sf e = true /\ In e (map fst hist)).
+Proof.
+  intros Hr H fs.
+  destruct (init_good Sy sxor s0 H0 R0 N0 H0_len H0_deg R_le_N) as (G0 & K0).
+  destruct (run_ev_logok fuel hist _ sf l G0 Hr H) as (_ & (Hm & Hn & Hi)). fold fs in Hn, Hi.
+  destruct (NoDup_app_parts fs l Hn) as (Nf & Nl & Hd).
+  assert (Hall : forall e, In e (fs ++ l) <-> known sf e = true).
+  { intros e. rewrite (Hi e). split; [intros [_ Hb]; exact Hb|intros Hb; split; [apply K0|exact Hb]]. }
+  split; [exact Nl|split; [exact Nf|split; [|split; [|split]]]].
+  - intros e [Ha Hb]. exact (Hd e Hb Ha).
+  - intros e He. apply Hall in He. apply in_app_or in He. tauto.
+  - intros e. split.
+    + intros He. split; [apply Hall; apply in_or_app; right; exact He|]. intros Hf. exact (Hd e Hf He).
+    + intros [Hk Hnf]. apply Hall in Hk. apply in_app_or in Hk. tauto.
+  - intros e He. split; [apply Hall; apply in_or_app; left; exact He|]. exact (firsts_sub fuel hist _ e He).
+Qed.
+
+(* the row/column hypothesis of B3 holds on every state whose rows are sub-rows of the matrix
+   (the states the streaming decoder leaves behind, and those of the simplification) *)
+Lemma MLRng_of_rows (s : st) : WF s -> (forall i, i < R0 -> incl (nth i (rws s) []) (nth i H0 [])) ->
+  MLRng Sy s /\ n s <= length (tab s).
+Proof.
+  intros W Hsub. split.
+  - intros row x Hx. rewrite (wf_tab Sy R0 N0 s W).
+    destruct (Nat.lt_ge_cases row R0) as [Hlt|Hge].
+    + exact (H0_range row x Hlt (Hsub row Hlt x Hx)).
+    + rewrite nth_overflow in Hx by (rewrite (wf_rws Sy R0 N0 s W); exact Hge). destruct Hx.
+  - rewrite (wf_tab Sy R0 N0 s W), (wf_n Sy R0 N0 s W). apply Nat.le_refl.
+Qed.
+
+(* B3 on such states *)
+Corollary ml_finish_ev_log_wf fuel perm (s : st) o l : WF s ->
+  (forall i, i < R0 -> incl (nth i (rws s) []) (nth i H0 [])) ->
+  ml_finish_ev sxor s0 fuel perm s = Some (o, l) ->
+  NoDup l
+  /\ (forall e, In e l -> known s e = false /\ known (o_st o) e = true)
+  /\ (forall e, known s e = false -> known (o_st o) e = true -> In e l).
+Proof.
+  intros W Hsub H. destruct (MLRng_of_rows s W Hsub) as (HR & Hn).
+  destruct (ml_finish_ev_log Sy sxor s0 fuel perm s o l HR Hn H) as (A & B & C & _). auto.
+Qed.
+End ITLOG.
+
+Print Assumptions decode_ev_sim.
+Print Assumptions run_ev_sim.
+Print Assumptions simplify_ev_sim.
+Print Assumptions inject_ev_sim.
+Print Assumptions ml_finish_ev_sim.
+Print Assumptions decode_ev_log.
+Print Assumptions decode_ev_log_good.
+Print Assumptions run_ev_logok.
+Print Assumptions run_ev_log.
+Print Assumptions simplify_ev_log.
+Print Assumptions ml_finish_ev_logok.
+Print Assumptions ml_finish_ev_log.
+Print Assumptions MLRng_of_rows.
+Print Assumptions ml_finish_ev_log_wf.
